@@ -43,7 +43,7 @@ def _impl(m, k, lay='c', raw=None):
             with warnings.catch_warnings():
                 warnings.simplefilter('ignore')
                 if lay == 'amp':
-                    df = detect_bursts_amp(pd.DataFrame({'burst_fraction': np.asarray(m, dtype=float)}), burst_fraction_threshold=1, min_n_cycles=kv)
+                    df = detect_bursts_amp(pd.DataFrame({'burst_fraction': np.asarray(m, dtype=float)}), burst_fraction_threshold=.5, min_n_cycles=kv)      # (criterion values 0 and 1 well away from the threshold: only the filter decides)
                 else:       # (detect_bursts_cycles never labels the first and the last cycle: the filter sees the criterion with a False at both ends,
                     v = np.asarray(m if raw is None else raw, dtype=float)      #  `m`; the table's criterion itself, `raw`, may hold there)
                     df = detect_bursts_cycles(pd.DataFrame({c: v for c in ('amp_fraction', 'amp_consistency', 'period_consistency', 'monotonicity')}),
